@@ -184,3 +184,12 @@ Print Assumptions C12_error_names_both.
 Print Assumptions C12_error_first_pair.
 Print Assumptions C12_hypotheses_from_unique_names.
 Print Assumptions C12_block_named_as_device_refuted.
+
+(* The ORDER of the passes, TRANSLATED from the two `run_passes` functions of generation/src/{mir,lir}/passes/mod.rs on every
+   build: the collision pass runs on the lowered tree, after every MIR pass. *)
+From DD Require GenPassOrder.
+Theorem C12_pass_order_from_source :
+  DDGen.PassOrder.mir_pass_order = GenPassOrder.expected_mir_pass_order /\
+  DDGen.PassOrder.lir_pass_order = GenPassOrder.expected_lir_pass_order.
+Proof. exact GenPassOrder.pass_order_as_modelled. Qed.
+Print Assumptions C12_pass_order_from_source.
